@@ -108,4 +108,15 @@ theorem exec_mapM_pure (f : α → M β) (g : α → β) (as : List α) (s : St)
     rw [ih (fun a ha => h a (by simp [ha]))]
     simp
 
+/-- a function call other than COALESCE (which is evaluated lazily): arguments first, then the function -/
+theorem evalExpr_call (cb : Callbacks) (te : TypeEnv) (env : Env) (schema name : String) (args : List Expr) (h : (name == "coalesce") = false) :
+    evalExpr cb te env (Expr.call schema name args) = (do
+      let vs ← evalExprs cb te env args
+      match (if schema.isEmpty || schema == "public" || schema == "pg_catalog" then evalPureFn name vs else none) with
+      | some r => liftR r
+      | none => cb.call schema name vs) := by
+  rw [evalExpr]
+  simp only [h, Bool.and_false, Bool.false_eq_true, if_false]
+  rfl
+
 end Ledger.Sql
